@@ -3,16 +3,16 @@ CONSTANTS
   Params = {"p1", "p2"}
   Mod2 = {}
   Vals = {"a", "b"}
-  Errs = {"e1", "e2"}
+  Errs = {"e1"}
   Invs = {"i1"}
   Conns = {"c1", "c2"}
   OmitChoices = {0, 2, 999999999}
-  InitStamps = {0, 1}
+  InitStamps = {0}
   NoDefault = {"p1"}
   InitScopeSets = {{}, {"all"}}
   HiddenChoices = {{}}
   ActScopes = {"all", "p1"}
-  RepKinds = {"ReadOk", "ReadRaise", "ReadInvalid", "AssignInvalid", "Activate"}
+  RepKinds = {"ReadOk", "ReadRaise", "ReadInvalid", "AssignInvalid", "Activate", "Deactivate", "Drop", "ReadNested", "AnnounceAt"}
   MaxNow = 3
 CONSTRAINT TimeBound
 INVARIANT TypeOK
